@@ -565,7 +565,7 @@ pub fn run(c: &mut Ctx) {
 interleaving, occasionally to a not-existing id; pairwise distinct titles from ASCII / Latin-1 / BMP / astral planes and boundary code points; \
 pages = any page of a 1..40-page document with a nested page tree; zero-page parents + adjust_zero_pages; targets that are no pages in a \
 separate stream) run through the real add_bookmark/adjust_zero_pages/build_outline/get_toc/save_to/load_mem; mutated outlines (no cycles) \
-for the readers. Non-trivial = forest with >= 2 reachable bookmarks (distinct by request text) or a mutated outline.".into();
+for the readers; large forests (260-600 bookmarks: wide with children under items past the 256th, a chain of 300 levels, a 20x20 grid). Non-trivial = forest with >= 2 reachable bookmarks (distinct by request text) or a mutated outline.".into();
 
     let n = c.n(300, 12000);
     for i in 0..n {
@@ -586,6 +586,14 @@ for the readers. Non-trivial = forest with >= 2 reachable bookmarks (distinct by
     for (i, (depth, fan)) in [(30usize, 1usize), (1, 60), (12, 3), (60, 2)].iter().enumerate() {
         let Some(mut r) = c.case("shape", i as u64) else { continue };
         shape_case(c, &mut r, *depth, *fan);
+    }
+    // large forests: more than 256 outline items before an item with children, a chain of 300 levels, a 20x20 grid
+    // (a reader bound on the NUMBER of items visited instead of the nesting depth shows only here)
+    let n_big = c.n(5, 40);
+    for i in 0..n_big {
+        let Some(mut r) = c.case("big", i) else { continue };
+        let ops = big_ops(&mut r, i);
+        big_case(c, &mut r, &ops, i);
     }
     let n = c.n(300, 12000);
     for i in 0..n {
@@ -636,6 +644,97 @@ fn shape_case(c: &mut Ctx, r: &mut Rng, depth: usize, fan: usize) {
         other => c.oracle_fail("toc-readback", "deep/wide forest does not read back", json!({"case": cj, "actual": format!("{:?}", other.map(|x| x.map(|y| y.0.len())))})),
     }
     if let Ok(rep) = toc_reply(&doc) { c.corr(toc_request(&doc), rep); }
+}
+
+fn big_title(r: &mut Rng, k: usize) -> String {
+    match r.below(4) { 0 => format!("t{}", k), 1 => format!("\u{a7}{} \u{e9}", k), 2 => format!("{} \u{1F4D6}", k), _ => format!("Chapter {}", k) }
+}
+/// operation sequences for forests with several hundred bookmarks
+fn big_ops(r: &mut Rng, i: u64) -> Vec<(String, Option<u32>)> {
+    let mut ops: Vec<(String, Option<u32>)> = vec![];
+    let mut push = |r: &mut Rng, parent: Option<u32>, ops: &mut Vec<(String, Option<u32>)>| -> u32 { let k = ops.len() + 1; ops.push((big_title(r, k), parent)); k as u32 };
+    match i % 5 {
+        0 => { // 260..400 top-level items, children under late items (and one early), grandchildren under a late child
+            let n = 260 + r.usize(141);
+            for _ in 0..n { push(r, None, &mut ops); }
+            let mut late_child = 0;
+            for _ in 0..8 { let p = 257 + r.usize(n - 257) as u32 + 1; for _ in 0..1 + r.usize(3) { late_child = push(r, Some(p), &mut ops); } }
+            let p = 1 + r.usize(100) as u32; push(r, Some(p), &mut ops);
+            for _ in 0..2 { push(r, Some(late_child), &mut ops); }
+        }
+        1 => { // a chain of 300 levels, a few siblings at the bottom and half way
+            let mut parent = None;
+            for _ in 0..300 { parent = Some(push(r, parent, &mut ops)); }
+            for _ in 0..3 { push(r, parent, &mut ops); }
+            for _ in 0..2 { push(r, Some(150), &mut ops); }
+        }
+        2 => { // 20 x 20 grid, children attached column by column (interleaved)
+            for _ in 0..20 { push(r, None, &mut ops); }
+            for _ in 0..20 { for p in 1..=20u32 { push(r, Some(p), &mut ops); } }
+        }
+        3 => { // children exactly around the 256th item
+            for _ in 0..300 { push(r, None, &mut ops); }
+            for p in [254u32, 255, 256, 257, 258, 300] { push(r, Some(p), &mut ops); push(r, Some(p), &mut ops); }
+        }
+        _ => { // random large forest
+            let n = 300 + r.usize(300);
+            let mut depth: Vec<usize> = vec![];
+            for k in 0..n {
+                if k > 0 && r.chance(2, 5) {
+                    let p = r.usize(k);
+                    if depth[p] < 8 { depth.push(depth[p] + 1); push(r, Some(p as u32 + 1), &mut ops); continue; }
+                }
+                depth.push(1); push(r, None, &mut ops);
+            }
+        }
+    }
+    ops
+}
+fn big_case(c: &mut Ctx, r: &mut Rng, tops: &[(String, Option<u32>)], i: u64) {
+    let (mut doc, cat, pages, _other) = build_doc(r, 5);
+    let ops: Vec<Op> = tops.iter().map(|(t, p)| Op { title: t.clone(), color: [0.0, 0.5, 1.0], format: (i % 4) as u32, page: *r.pick(&pages), parent: *p }).collect();
+    let old_max = doc.max_id;
+    let before = doc.objects.clone();
+    let f = forest_of(&ops);
+    let req = build_request(old_max, false, &ops);
+    c.nontrivial(&req);
+    c.count("big.cases");
+    c.count_n("big.bookmarks", ops.len() as u64);
+    let pre = f.preorder();
+    // how many items precede (in preorder) the last item that has children: > 256 is what a visited-items bound would cut
+    if let Some(pos) = pre.iter().rposition(|(_, id)| !f.nodes[id].kids.is_empty()) { if pos > 256 { c.count("big.children_after_256_items"); } }
+    if f.height() > 256 { c.count("big.height_gt_256"); }
+    let cj = json!({"shape": i % 5, "bookmarks": ops.len(), "height": f.height()});
+    let root = match guard(|| { apply_ops(&mut doc, &ops); doc.build_outline() }) {
+        Ok(Some(r)) => r,
+        Ok(None) => { c.oracle_fail("no-outline", "None", cj); return; }
+        Err((site, msg)) => { c.oracle_fail(&format!("panic@{}", site), &msg, cj); return; }
+    };
+    let created: Vec<(&ObjectId, &Object)> = doc.objects.iter().filter(|(k, _)| !before.contains_key(k)).collect();
+    c.corr(req, format!("ok R{}_{} {} rep=1 {} objs {}", root.0, root.1, doc.max_id, bm_pages(&doc), show_objects(created.into_iter())));
+    if let Err(e) = check_links(&doc, &before, old_max, root, &f) { c.oracle_fail("links", &e, cj.clone()); return; }
+    if let Ok(Object::Dictionary(d)) = doc.get_object_mut(cat) { d.set("Outlines", Object::Reference(root)); }
+    let expected = expected_toc(&f, &pages);
+    let diff = |toc: &Vec<(usize, String, usize)>| -> String {
+        let first_bad = toc.iter().zip(expected.iter()).position(|(a, b)| a != b).unwrap_or(toc.len().min(expected.len()));
+        format!("{} entries, expected {}; first difference at entry {}: got {:?}, expected {:?}", toc.len(), expected.len(), first_bad, toc.get(first_bad), expected.get(first_bad))
+    };
+    if let Ok(rep) = toc_reply(&doc) { c.corr(toc_request(&doc), rep); }
+    match toc_of(&doc) {
+        Ok(Ok((toc, 0))) if toc == expected => c.count("big.readback_ok"),
+        Ok(Ok((toc, ne))) => { c.oracle_fail("toc-readback", "large forest: get_toc differs from the preorder of the bookmark forest", json!({"case": cj, "diff": diff(&toc), "errors": ne})); return; }
+        other => { c.oracle_fail("toc-error", "large forest: get_toc failed", json!({"case": cj, "got": format!("{:?}", other.map(|x| x.map(|y| y.0.len())))})); return; }
+    }
+    let mut buf = Vec::new();
+    match guard(|| { doc.save_to(&mut buf).map_err(|e| e.to_string())?; Document::load_mem(&buf).map_err(|e| e.to_string()) }) {
+        Ok(Ok(d2)) => match toc_of(&d2) {
+            Ok(Ok((toc, 0))) if toc == expected => c.count("big.readback_after_reload_ok"),
+            Ok(Ok((toc, ne))) => c.oracle_fail("toc-readback-reload", "large forest: get_toc after save_to + load_mem differs from the preorder", json!({"case": cj, "diff": diff(&toc), "errors": ne})),
+            other => c.oracle_fail("toc-error-reload", "large forest: get_toc failed after reload", json!({"case": cj, "got": format!("{:?}", other.map(|x| x.map(|y| y.0.len())))})),
+        },
+        Ok(Err(e)) => c.oracle_fail("save-load", &e, cj.clone()),
+        Err((site, msg)) => c.oracle_fail(&format!("panic@{}", site), &msg, cj.clone()),
+    }
 }
 
 fn title_case(c: &mut Ctx, r: &mut Rng, i: u64) {
